@@ -831,16 +831,38 @@ class Classifier:
 
 # --------------------------------------------------------------------------------------------- site extraction
 
-SAFE_FORMAT_SHAPE = (
-    "FunctionDef(name='safe_format', args=arguments(posonlyargs=[], args=[arg(arg='template')], vararg=arg(arg='args'), kwonlyargs=[], "
-    "kw_defaults=[], kwarg=arg(arg='kwargs'), defaults=[]), body=[Assign(targets=[Name(id='args', ctx=Store())], value=ListComp(elt=Call("
-    "func=Name(id='_escape', ctx=Load()), args=[Name(id='s', ctx=Load())], keywords=[]), generators=[comprehension(target=Name(id='s', ctx=Store()), "
-    "iter=Name(id='args', ctx=Load()), ifs=[], is_async=0)])), Assign(targets=[Name(id='kwargs', ctx=Store())], value=DictComp(key=Name(id='k', "
-    "ctx=Load()), value=Call(func=Name(id='_escape', ctx=Load()), args=[Name(id='v', ctx=Load())], keywords=[]), generators=[comprehension("
-    "target=Tuple(elts=[Name(id='k', ctx=Store()), Name(id='v', ctx=Store())], ctx=Store()), iter=Call(func=Attribute(value=Name(id='kwargs', "
-    "ctx=Load()), attr='items', ctx=Load()), args=[], keywords=[]), ifs=[], is_async=0)])), Return(value=Call(func=Name(id='safestr', ctx=Load()), "
-    "args=[Call(func=Attribute(value=Name(id='template', ctx=Load()), attr='format', ctx=Load()), args=[Starred(value=Name(id='args', ctx=Load()), "
-    "ctx=Load())], keywords=[keyword(value=Name(id='kwargs', ctx=Load()))])], keywords=[]))], decorator_list=[]")
+SAFE_FORMAT_SRC = '''
+def safe_format(template, *args, **kwargs):
+    args = [_escape(s) for s in args]
+    kwargs = {k: _escape(v) for k, v in kwargs.items()}
+    return safestr(template.format(*args, **kwargs))
+'''
+
+def _norm(node):
+    """ast.dump with local variable names of comprehensions normalised away"""
+    names = {}
+    class N(ast.NodeTransformer):
+        def visit_comprehension(self, c):
+            for t in ast.walk(c.target):
+                if isinstance(t, ast.Name):
+                    names.setdefault(t.id, f'v{len(names)}')
+            return self.generic_visit(c)
+    class R(ast.NodeTransformer):
+        def visit_Name(self, n):
+            return ast.copy_location(ast.Name(id=names.get(n.id, n.id), ctx=n.ctx), n)
+    import copy
+    node = copy.deepcopy(node)
+    N().visit(node)
+    return ast.dump(R().visit(node))
+
+def safe_format_shape_ok(fn):
+    """safe_format escapes every positional and keyword argument (in either order) and returns
+    safestr(template.format(*args, **kwargs)); nothing else happens in the body"""
+    ref = ast.parse(SAFE_FORMAT_SRC).body[0]
+    body = [s for s in fn.body if not (isinstance(s, ast.Expr) and isinstance(s.value, ast.Constant))]     # docstring allowed
+    if len(body) != 3 or ast.dump(fn.args) != ast.dump(ref.args) or fn.decorator_list:
+        return False
+    return sorted(_norm(s) for s in body[:2]) == sorted(_norm(s) for s in ref.body[:2]) and ast.dump(body[2]) == ast.dump(ref.body[2])
 
 def extract(repo):
     C = Classifier(repo)
@@ -861,8 +883,7 @@ def extract(repo):
                     arg = par.args[0]
                     if rel == 'lib/tags.py' and fq == 'safe_format' and nm == 'safestr':
                         fn = enclosing(node, ast.FunctionDef)
-                        shape = ast.dump(fn)
-                        if shape.startswith(SAFE_FORMAT_SHAPE):
+                        if safe_format_shape_ok(fn):
                             p = P('formatOfEscaped', ['formatOfEscaped: template.format over _escape()d arguments (function shape pinned)'])
                         else:
                             p = UNK('tags.safe_format no longer has the pinned shape')
